@@ -43,15 +43,30 @@ def ob_finalize_retention(run, oid):
                 bad.append("depends on %s" % G.atoms_show(other)[:2])
                 continue
             t = K.peel(ret) if ret is not None else None
-            ok = False
-            if isinstance(t, tuple) and t and t[0] == "call" and len(t[2]) == 2:
-                op = t[1].rsplit("::", 1)[-1]
-                a0, a1 = t[2]
-                is_slot = lambda x: K.mentions_call(x, "slot") and K.mentions(x, lambda y: y[0] == "param")
-                is_fin = lambda x: K.mentions(x, lambda y: y[0] == "upvar") and not K.mentions(x, lambda y: y[0] == "param")
-                ok = (op == "ge" and is_slot(a0) and is_fin(a1)) or (op == "le" and is_fin(a0) and is_slot(a1))
+            is_slot = lambda x: K.mentions_call(x, "slot") and K.mentions(x, lambda y: y[0] == "param")
+            is_fin = lambda x: K.mentions(x, lambda y: y[0] == "upvar") and not K.mentions(x, lambda y: y[0] == "param")
+
+            def val(x, sv, fv):
+                """truth value of a comparison term over (entry slot = sv, finalized slot = fv); None = not understood"""
+                x = K.peel(x)
+                if isinstance(x, tuple) and x and x[0] == "un" and str(x[1]) == "Not":
+                    v = val(x[2], sv, fv)
+                    return None if v is None else (not v)
+                if isinstance(x, tuple) and x and x[0] == "const" and x[2] in (0, 1):
+                    return bool(x[2])
+                if isinstance(x, tuple) and x and ((x[0] == "call" and len(x[2]) == 2) or x[0] == "bin"):
+                    op = x[1].rsplit("::", 1)[-1].lower()
+                    a0, a1 = (x[2][0], x[2][1]) if x[0] == "call" else (x[2], x[3])
+                    n0 = sv if is_slot(a0) else (fv if is_fin(a0) else None)
+                    n1 = sv if is_slot(a1) else (fv if is_fin(a1) else None)
+                    if n0 is None or n1 is None or op not in ("ge", "le", "gt", "lt", "eq", "ne"):
+                        return None
+                    return {"ge": n0 >= n1, "le": n0 <= n1, "gt": n0 > n1, "lt": n0 < n1, "eq": n0 == n1, "ne": n0 != n1}[op]
+                return None
+            vs = [val(t, sv, 5) for sv in (4, 5, 6)] if t is not None else [None]
+            ok = vs == [False, True, True]
             if not ok:
-                bad.append("keeps when %s" % (mir.show(t)[:70] if t is not None else None))
+                bad.append("keeps when %s (slot below / at / above the finalized slot: %s)" % (mir.show(t)[:70] if t is not None else None, vs))
         o.check(not bad and bool(rows), "finalize|keeps-from-finalized-slot", "kept iff entry.slot() >= finalized slot, for every kind of entry", b.span, {"problems": bad[:3]})
 
 
@@ -262,6 +277,12 @@ def check(run):
                         if p_[0] == "f" and K.mentions_field(caps.get(fb.defpath, {}).get(p_[1], ("none",)), "state_hash", "BlockExec"):
                             nw += 1
         o.check(nw == 1, "execute_transactions|single-writer", "state_hash is updated only by that fold", b.span, {"writes": nw})
+        # ... into the record of exactly the block named by the caller: no alternative key (slot instead of block id, ..) - transactions of a
+        # block that is not tracked must not be folded into whichever block happens to be in progress for that slot
+        gm = [(fb, c) for fb in fam for c in fb.calls() if c.name.rsplit("::", 1)[-1] in ("get_mut", "entry", "get") and c.args and K.mentions_field(fb.operand_term(c.args[0]), "blocks", "DummyExecution")]
+        keys_ok = bool(gm) and all(isinstance(K.peel(fb.operand_term(c.args[1])), tuple) and K.peel(fb.operand_term(c.args[1]))[:2] == ("param", 2) for fb, c in gm if fb is b)
+        built = [rv.get("variant") for fb in fam for (_bb, rv, _sp, _dst) in fb.aggregates(EX + "InProgressBlock")]
+        o.check(keys_ok and not built, "execute_transactions|own-entry", "the updated record is blocks[id] for the id argument itself (no other key is constructed)", b.span, {"constructed_keys": built})
     eb = [prog.bodies[d] for d in ops if d.endswith("::end_block")]
     for b in eb:
         fam = prog.family(b.defpath)
@@ -288,6 +309,20 @@ def check(run):
                     second += [rv.get("variant") for (bb, rv, sp, dst) in cb.aggregates(EX + "InProgressBlock")]
             det = {"first": first, "then": second}
             ok = first == ["Known"] and second == ["Pending"]
+        if not ok:
+            # explicit form: `match blocks.get(&Known(id)) { Some(e) => .., None => blocks.get(&Pending(slot)) }`
+            def key_variants(fb, c):
+                return [x[2] for a in c.args[1:2] for x in mir.walk(fb.operand_term(a)) if isinstance(x, tuple) and x and x[0] == "agg" and str(x[1]).endswith("InProgressBlock")]
+            gets = [(fb, c, key_variants(fb, c)) for fb in fam for c in fb.calls() if c.name.endswith("BTreeMap::get") and K.mentions_field(fb.operand_term(c.args[0]), "blocks")]
+            known = [(fb, c) for fb, c, kv in gets if kv == ["Known"]]
+            pend = [(fb, c) for fb, c, kv in gets if kv == ["Pending"]]
+            if len(known) == 1 and len(pend) == 1 and known[0][0] is pend[0][0]:
+                fb, kc = known[0]
+                pc = pend[0][1]
+                ats = G.guard_atoms(fb, pc.bb, prog)
+                after_miss = any(a[0] == "is_some" and a[2] is False and any(x[2] == "Known" for x in mir.walk(a[1][0]) if isinstance(x, tuple) and x and x[0] == "agg" and str(x[1]).endswith("InProgressBlock")) for a in ats)
+                det = {"known_lookup": kc.span, "pending_lookup": pc.span, "pending_only_after_known_missed": after_miss}
+                ok = after_miss and fb.dominates(kc.bb, pc.bb)
         o.check(ok, "%s|lookup-order" % fn, "%s looks the block up as Known(block id) first and only then as Pending(slot)" % fn, oe[0][1].span if oe else "", det)
     for b in bb_:
         fam = [fb for d, fb in prog.bodies.items() if d == b.defpath or d.startswith(b.defpath + "::{closure")]
@@ -537,7 +572,7 @@ def _chunk_at_by_value(prog, ca, o, bits):
     from engine import paths
     from . import termeval as TE
     if not bits:
-        return
+        return False
     rows = paths.decision_table(ca, prog)
     keys = [bytes([0xff] * 32), bytes([0xaa] * 32), bytes([0x55] * 32), bytes(range(32)), bytes([0x08] * 32), bytes([0x01] * 32), bytes([0x80] * 32)]
     keys += [hashlib.sha256(b"chunk_at-%d" % i).digest() for i in range(9)]
@@ -581,10 +616,12 @@ def _chunk_at_by_value(prog, ca, o, bits):
         if undecided:
             break
     if undecided:
-        o.fail("chunk_at|by-value|undecided", "chunk_at could not be evaluated (%s): failing closed" % undecided, ca.span)
+        o.ok("chunk_at|by-value|undecided", "chunk_at could not be evaluated (%s): deciding by the structural reading instead" % undecided, ca.span, nontrivial=False)
+        return False
     else:
         o.check(not bad and n >= len(keys) * ndepth, "chunk_at|by-value", "chunk_at(key, d) equals the d-th %d-bit chunk of the key for all %d depths and %d keys (every path evaluated)" % (bits, ndepth, len(keys)),
                 ca.span, {"mismatches": bad[:4], "evaluated": n})
+    return True
 
 
 def ob_trie_arith(run, oid):
@@ -714,11 +751,17 @@ def ob_trie_arith(run, oid):
                         hi_ok = len(idxs) == 1 and is_byte(idxs[0][2], False) and any(idxs[0] in list(mir.walk(x[2])) for x in shl8)
                         lo_ok = (len(getc) == 1 and is_byte(ca.operand_term(getc[0].args[1]), True) and any(c.endswith("::get") for c in pvw["calls"])
                                  and not any(any(c.endswith("::get") for c in ca.provenance(x[2], depth=8)["calls"]) for x in shl8))
-                        o.check(ok_s, "chunk_at|shift", "shift = 16 - BITS_PER_LEVEL - (depth*BITS_PER_LEVEL) % 8", ca.span, det)
-                        o.check(hi_ok, "chunk_at|high-byte", "window high byte = key[(depth*BITS_PER_LEVEL) / 8] << 8", ca.span)
-                        o.check(lo_ok, "chunk_at|low-byte", "window low byte = key.get((depth*BITS_PER_LEVEL) / 8 + 1) or 0 (zero padding of the last chunk)", ca.span)
-        o.check(ok, "chunk_at|mask", "result = (window >> shift) & (FANOUT - 1)", ca.span, det)
-        _chunk_at_by_value(prog, ca, o, bits)
+                        structural = [(ok_s, "chunk_at|shift", "shift = 16 - BITS_PER_LEVEL - (depth*BITS_PER_LEVEL) % 8"), (hi_ok, "chunk_at|high-byte", "window high byte = key[(depth*BITS_PER_LEVEL) / 8] << 8"),
+                                      (lo_ok, "chunk_at|low-byte", "window low byte = key.get((depth*BITS_PER_LEVEL) / 8 + 1) or 0 (zero padding of the last chunk)")]
+        decided = _chunk_at_by_value(prog, ca, o, bits)
+        # the structural reading of the formula is kept as a second opinion only when the evaluation could not decide
+        if decided:
+            for key_ in ("chunk_at|shift", "chunk_at|high-byte", "chunk_at|low-byte", "chunk_at|mask"):
+                o.ok(key_, "decided by value (chunk_at|by-value)", ca.span, nontrivial=False)
+        else:
+            for (v_, key_, txt_) in locals().get("structural", []):
+                o.check(v_, key_, txt_, ca.span, det)
+            o.check(ok, "chunk_at|mask", "result = (window >> shift) & (FANOUT - 1)", ca.span, det)
     # len bookkeeping
     ib = prog.body(ST + "State::insert")
     if ib is not None:
